@@ -296,11 +296,18 @@ func c16(e *Env) {
 	case 0:
 		// sequences of additions, removals and restarts; after the last one routing equals the backend's view
 		nf := 1 + c.Choose("nfaults", 5)
+		var cl2 *world.Client // a client with other settings, connected during a refresh (some runs)
 		addedAt := map[*world.Node]time.Duration{}
 		for _, n := range w.Nodes {
 			addedAt[n] = -time.Hour
 		}
 		for i := 0; i < nf && !w.Stopped(); i++ {
+			if cn := controlNode(); cn != nil && c.Choose("peers-query-fails", 4) == 3 {
+				// the refresh that the next event triggers fails half-way: system.local answers,
+				// system.peers does not (an overloaded coordinator); a later refresh has to put it right
+				cn.FailPeersQueries = 1 + c.Choose("peers-query-fails-n", 2)
+				e.Res.Stats["probe.c16.peers_query_fails"]++
+			}
 			switch c.Choose("topofault", 4) {
 			case 0:
 				if len(w.Nodes) < 6 {
@@ -315,6 +322,36 @@ func c16(e *Env) {
 					}
 					w.EmitEvent(&message.TopologyChangeEvent{ChangeType: primitive.TopologyChangeTypeNewNode, Address: &primitive.Inet{Addr: n.IP, Port: 9042}})
 					w.Stat("fault.node-add")
+					if cl2 == nil && c.Choose("session-created-during-refresh", 3) == 2 {
+						// a client with other settings (another session of the proxy) makes its first
+						// request at the moment the refresh for this event is due: the session that is
+						// being created then must end up with the new node like every other session
+						t0 := w.Now()
+						cl2 = w.ConnectClient(pi, primitive.ProtocolVersion4)
+						cl2.Compression = "lz4"
+						st2 := cl2.Send("startup", "", &message.Startup{Options: map[string]string{"CQL_VERSION": "3.0.0", "COMPRESSION": "lz4"}}, nil)
+						w.RunUntil(func() bool { return len(st2.Replies) > 0 }, time.Second)
+						// one node is slow to answer for a few seconds around that moment, so that the
+						// new session is still connecting when the refresh completes
+						var slow *world.Node
+						for _, x := range w.Nodes {
+							if x != controlNode() && x != n && x.Up && x.InCluster && c.Choose("slow-handshake", 2) == 1 {
+								slow = x
+							}
+						}
+						before := time.Duration(c.Choose("session-before-refresh", 3)) * time.Second
+						w.RunUntil(func() bool { return false }, refreshWindow-before-(w.Now()-t0))
+						if slow != nil {
+							slow.Stalled = true
+						}
+						tok := w.NewToken()
+						cl2.Send("query", tok, world.QueryMsg("SELECT * FROM ks.t WHERE k = '"+tok+"'", primitive.ConsistencyLevelOne), nil)
+						if slow != nil {
+							w.RunUntil(func() bool { return false }, before+time.Duration(1+c.Choose("slow-for", 4))*time.Second)
+							slow.Unstall()
+						}
+						e.Res.Stats["probe.c16.session_created_during_refresh"]++
+					}
 				}
 			case 1:
 				var cands []*world.Node
@@ -423,6 +460,20 @@ func c16(e *Env) {
 		if keysOf(hit) != keysOf(want) {
 			w.Violate("c16-topology", "routing-does-not-follow-topology", fmt.Sprintf("%v after the last topology change the backend's cluster is {%s} but probe requests were served by {%s} (counts %v)", bound, keysOf(want), keysOf(hit), hit))
 			return
+		}
+		if cl2 != nil && cl2.Connected() {
+			hit2, ok2 := probeRound(w, cl2, 4*len(w.Nodes)+4)
+			if w.Stopped() {
+				return
+			}
+			if !ok2 {
+				w.Violate("c16-topology", "probe-not-answered", "a probe request of the second client got no reply after the faults stopped")
+				return
+			}
+			if keysOf(hit2) != keysOf(want) {
+				w.Violate("c16-topology", "routing-does-not-follow-topology(second session)", fmt.Sprintf("%v after the last topology change the backend's cluster is {%s} but the probe requests of a client whose session was created during a refresh were served by {%s} (counts %v)", bound, keysOf(want), keysOf(hit2), hit2))
+				return
+			}
 		}
 		// removed nodes are not dialled any more either (their pools are gone)
 		w.RunUntil(func() bool { return false }, cfg.ReconnMax+cfg.ConnectTimeout+5*time.Second)
